@@ -159,6 +159,7 @@ pub fn worker_main(check: &dyn Check, tier: Tier, seed: u64, shard: usize, nshar
     let mut merged = Merged::default();
     let mut skipping = skip_through.is_some();
     let mut last_flush = Instant::now();
+    let mut nviol = 0usize;
     for g in check.gens() {
         let n = match tier {
             Tier::Quick => g.quick,
@@ -189,6 +190,7 @@ pub fn worker_main(check: &dyn Check, tier: Tier, seed: u64, shard: usize, nshar
                     merged.samples.push(s);
                 }
             }
+            nviol += out.violations.len();
             if !out.violations.is_empty() {
                 if let Ok(mut f) = std::fs::OpenOptions::new().create(true).append(true).open(&vio_path) {
                     for v in out.violations.iter() {
@@ -205,6 +207,14 @@ pub fn worker_main(check: &dyn Check, tier: Tier, seed: u64, shard: usize, nshar
             if last_flush.elapsed() > Duration::from_secs(4) {
                 write_summary(&summary, &merged);
                 last_flush = Instant::now();
+            }
+            if nviol >= 8 {
+                // the verdict of the run is already VIOLATION; a broken engine can make every
+                // further case burn its whole step budget, so this shard stops here
+                bump_by(&mut merged.counters, "shards_stopped_early_after_8_violations", 1);
+                write_summary(&summary, &merged);
+                let _ = std::fs::write(&progress, "DONE\n");
+                return;
             }
         }
     }
